@@ -196,9 +196,68 @@ for name, cfg in PIPES.items():
         if len(samples) < 3:
             samples.append({"pipeline": name, "way": way, "series": [(n, m["registered_classes"], m["live_component_classes"], m["gc_objects"]) for n, m in series]})
 
+
+
+def failing_jobs_through_the_queue():
+    """jobs whose pipeline raises, run through a queue master + worker: every job's Future completes exceptionally and nothing of the
+    job stays behind in the orchestrator (pending futures, live Future objects)"""
+    global evaluations
+    import gc
+    from concurrent.futures import Future
+    from semantiva.execution.job_queue.queue_orchestrator import QueueSemantivaOrchestrator
+    from semantiva.execution.job_queue.worker import worker_loop
+    from semantiva.execution.transport.in_memory import InMemorySemantivaTransport
+    from semantiva.execution.executor.executor import SequentialSemantivaExecutor
+    bad_cfg = [{"processor": "FloatValueDataSourceWithDefault"}, {"processor": "FloatMultiplyOperation"}]      # unresolvable parameter
+    stop = threading.Event()
+    transport = InMemorySemantivaTransport()
+    orch = QueueSemantivaOrchestrator(transport, stop_event=stop)
+    ths = [threading.Thread(target=orch.run_forever, daemon=True),
+           threading.Thread(target=worker_loop, args=(0, transport, SequentialSemantivaExecutor(), stop), kwargs={"poll_interval": 0.005}, daemon=True)]
+    for t in ths:
+        t.start()
+
+    def once():
+        f = orch.enqueue(bad_cfg, context=ContextType({}), return_future=True)
+        try:
+            f.result(timeout=20)
+        except Exception:      # noqa - the job is supposed to fail
+            pass
+
+    def count():
+        gc.collect()
+        return {"pending_futures": len(orch.pending_futures), "live_futures": sum(1 for o in gc.get_objects() if isinstance(o, Future))}
+    evaluations += 1
+    distinct.add(("plain", "queue-worker-failing-jobs"))
+    try:
+        for _ in range(3):
+            once()
+        series = [(0, count())]
+        done = 0
+        for n in (10, 30):
+            for _ in range(n):
+                once()
+            done += n
+            series.append((done, count()))
+    finally:
+        stop.set()
+        orch.stop()
+        for t in ths:
+            t.join(timeout=2)
+    for key in ("pending_futures", "live_futures"):
+        vals = [m[key] for _, m in series]
+        if all(b > a for a, b in zip(vals, vals[1:])):
+            failures.append({"class": f"grows-with-the-number-of-runs:{key}:queue-worker-failing-jobs", "values": vals, "per_run": round((vals[-1] - vals[0]) / 40, 2)})
+
+
+try:
+    failing_jobs_through_the_queue()
+except Exception as e:       # noqa
+    failures.append({"class": "repetition-harness-error", "pipeline": "plain", "way": "queue-worker-failing-jobs", "exc": repr(e)[:300]})
+
 import shutil
 shutil.rmtree(tmp, ignore_errors=True)
-print(json.dumps({"bound": "4 pipelines x {reused Pipeline, fresh Pipelines, run-space launch via CLI, queue worker} x N in %s after warm-up" % (list(NS),),
+print(json.dumps({"bound": "4 pipelines x {reused Pipeline, fresh Pipelines, run-space launch via CLI, queue worker} x N in %s after warm-up; failing jobs through a queue worker (pending / live futures) N in [10, 30]" % (list(NS),),
                   "evaluations": evaluations, "distinct_nontrivial": len(distinct),
                   "rule": "distinct = (pipeline, way of repeating); growth = registered component classes / live component classes / logger handlers strictly increasing with N, gc-tracked objects increasing by more than 400 per step",
                   "failures": failures[:60], "samples": samples}, default=str))
